@@ -177,7 +177,7 @@ fn stop_inner(args: &[&str]) -> String {
     }
     let (run, handle, point) = (args[0], args[1], args[2]);
     let k: usize = args[3].parse().unwrap_or(0);
-    if handle == "internal" && run.trim_end_matches("-early") != "spawn" {
+    if handle == "internal" && run.trim_end_matches("-early").trim_end_matches("-raw") != "spawn" {
         return "BADARG".into();
     }
     let sh = Arc::new(Shared {
@@ -208,10 +208,18 @@ fn stop_inner(args: &[&str]) -> String {
     }
     // the stop handle may be supplied at either end of the builder chain; every later builder step must carry it along
     // (`<run>-early`: handle first, then default_alg / additional_alg / try_additional_alg / spawn_thread)
-    let early = run.ends_with("-early");
-    let run = run.trim_end_matches("-early");
+    // `-raw`: the handle is supplied through `with_raw_stop_handle(Arc::into_raw(..))` (first in the chain), the other public way
+    let raw = run.ends_with("-raw");
+    let early = run.ends_with("-early") || raw;
+    let run = run.trim_end_matches("-early").trim_end_matches("-raw");
     let b0 = portus::RunBuilder::new(BackendBuilder { sock });
-    let b0 = if handle == "caller" && early { b0.with_stop_handle(stop_arc.clone()) } else { b0 };
+    let b0 = if handle == "caller" && raw {
+        unsafe { b0.with_raw_stop_handle(Arc::into_raw(stop_arc.clone())) }
+    } else if handle == "caller" && early {
+        b0.with_stop_handle(stop_arc.clone())
+    } else {
+        b0
+    };
     let mut b = b0
         .default_alg(Alg(sh.clone()))
         .additional_alg(Alg2(sh.clone()))
@@ -282,13 +290,122 @@ fn stop_inner(args: &[&str]) -> String {
         Ok(Err(_)) => "ERR",
         Err(()) => "PANIC",
     };
+    // the runtime only ever READS the caller's flag: after a stop it is still cleared (another holder of the same handle - a
+    // second runtime, a supervisor - must still see the request)
+    let flag_kept = if handle == "caller" && point != "badmsg" { !stop_arc.load(Ordering::SeqCst) } else { true };
     format!(
-        "RES {} closes={} recv_after_clear_le1={} late_cb={} latency_ok={} strong={}",
+        "RES {} closes={} recv_after_clear_le1={} late_cb={} latency_ok={} strong={}{}",
         r,
         sh.closes.load(Ordering::SeqCst),
         (sh.recv_after_clear.load(Ordering::SeqCst) <= 1) as u8,
         late,
         latency_ok as u8,
-        Arc::strong_count(&stop_arc)
+        Arc::strong_count(&stop_arc),
+        if flag_kept { "" } else { " FLAG-RESET" }
     )
+}
+
+
+// ---------------------------------------------------------------------------------------------
+// STOPX: the same over the BUNDLED transports (their receive timeout is what bounds the stop latency)
+
+struct AlgX;
+struct FlX;
+impl Flow for FlX {
+    fn on_report(&mut self, _s: u32, _m: Report) {}
+}
+impl<I: Ipc> CongAlg<I> for AlgX {
+    type Flow = FlX;
+    fn name() -> &'static str {
+        "stopx"
+    }
+    fn datapath_programs(&self) -> HashMap<&'static str, String> {
+        let mut m = HashMap::new();
+        m.insert("p", "(def (Report (x 0))) (when true (:= Report.x 1) (report))".to_string());
+        m
+    }
+    fn new_flow(&self, _c: Datapath<I>, _i: DatapathInfo) -> FlX {
+        FlX
+    }
+}
+
+/// `STOPX unix <new|skbuf|skbufsz>` / `STOPX chan b`: a spawned runtime on a real blocking transport, some traffic, then silence;
+/// `kill()` during the silence; `wait()` must yield Ok within the transport's 1 s receive timeout (+1.5 s slack):
+/// `RESX <OK|ERR|HANG> latency_ok=<0|1>`
+pub fn stopx(args: &[&str]) -> String {
+    if args.len() != 2 {
+        return "BADARG".into();
+    }
+    let tag = format!("vpx{}-{}", std::process::id(), std::time::SystemTime::now().duration_since(std::time::UNIX_EPOCH).map(|d| d.subsec_nanos()).unwrap_or(0));
+    let (tx, rx) = std::sync::mpsc::channel();
+    let a: Vec<String> = args.iter().map(|s| s.to_string()).collect();
+    std::thread::spawn(move || {
+        let r = std::panic::catch_unwind(|| stopx_inner(&a[0], &a[1], &tag)).unwrap_or_else(|_| "RESX PANIC".to_string());
+        let _ = tx.send(r);
+    });
+    match rx.recv_timeout(Duration::from_secs(8)) {
+        Ok(r) => r,
+        Err(_) => "RESX HANG latency_ok=0".into(),
+    }
+}
+
+fn stopx_inner(kind: &str, ctor: &str, tag: &str) -> String {
+    use portus::ipc::Blocking;
+    let finish = |h: portus::CCPHandle, quiet_ms: u64| {
+        std::thread::sleep(Duration::from_millis(quiet_ms));
+        let t = Instant::now();
+        h.kill();
+        let r = h.wait();
+        let lat = t.elapsed();
+        format!("RESX {} latency_ok={}", if r.is_ok() { "OK" } else { "ERR" }, (lat <= Duration::from_millis(2500)) as u8)
+    };
+    match kind {
+        "unix" => {
+            let rname = format!("{}-r", tag);
+            let sock = match ctor {
+                "new" => portus::ipc::unix::Socket::<Blocking>::new(&rname),
+                "skbuf" => portus::ipc::unix::Socket::<Blocking>::new_with_skbuf(&rname, None, None),
+                "skbufsz" => portus::ipc::unix::Socket::<Blocking>::new_with_skbuf(&rname, Some(65536), Some(65536)),
+                _ => return "BADARG".into(),
+            };
+            let sock = match sock {
+                Ok(s) => s,
+                Err(_) => return "RESX SOCKERR".into(),
+            };
+            let peer = match portus::ipc::unix::Socket::<Blocking>::new(&format!("{}-p", tag)) {
+                Ok(s) => s,
+                Err(_) => return "RESX SOCKERR".into(),
+            };
+            let h = match portus::RunBuilder::new(BackendBuilder { sock }).default_alg(AlgX).spawn_thread().run() {
+                Ok(h) => h,
+                Err(_) => return "RESX SPAWNERR".into(),
+            };
+            let to = std::path::PathBuf::from(format!("/tmp/ccp/{}", rname));
+            let _ = peer.send(&create(1), &to);
+            for i in 0..3u64 {
+                let _ = peer.send(&measure(1, 0, &[i, i + 1]), &to);
+            }
+            let out = finish(h, 150);
+            let _ = std::fs::remove_file(format!("/tmp/ccp/{}", rname));
+            let _ = std::fs::remove_file(format!("/tmp/ccp/{}-p", tag));
+            out
+        }
+        "chan" => {
+            let (to_ccp, from_dp) = crossbeam::channel::unbounded::<Vec<u8>>();
+            let (to_dp, _from_ccp) = crossbeam::channel::unbounded::<Vec<u8>>();
+            let sock = portus::ipc::chan::Socket::<Blocking>::new(to_dp, from_dp);
+            let h = match portus::RunBuilder::new(BackendBuilder { sock }).default_alg(AlgX).spawn_thread().run() {
+                Ok(h) => h,
+                Err(_) => return "RESX SPAWNERR".into(),
+            };
+            let _ = to_ccp.send(create(1));
+            for i in 0..3u64 {
+                let _ = to_ccp.send(measure(1, 0, &[i, i + 1]));
+            }
+            let out = finish(h, 150);
+            drop(to_ccp);
+            out
+        }
+        _ => "BADARG".into(),
+    }
 }
